@@ -12,6 +12,7 @@ CONSTANTS
   WarmK = @WARMK@
   WarmN = @WARMN@
   WarmV = @WARMV@
+  RejK = @REJK@
 INIT GInit
 NEXT GNext
 INVARIANTS Emit
